@@ -1,1 +1,268 @@
-(* C15 — stub while the violations of the unmodified tree are being replayed; replaced by the full statements. *)
+(* C15 — governance requests become exactly the VAA the contracts parse, or are rejected.
+   Go side: model/Governance.v (adminserver.go statement by statement; the Serialize methods of payloads.go, the validation
+   thresholds, the consistency level are GENERATED from the Go sources).  Contract side: the Ralph parsers
+   (parseAndVerifyGovernanceVAAGeneric, submitNewGuardianSet, submitSetMessageFee, submitTransferFees, submitContractUpgrade,
+   parseAndVerifyRegisterChain, upgradeContract, destroyUnexecutedSequenceContracts, updateMinimalConsistencyLevel,
+   updateRefundAddress, parseContractUpgrade) GENERATED statement by statement from the .ral sources (gen/ExtractedGov.v,
+   module RalGov) and run on the envelope values of the produced VAA.  [None] = the VM aborts.
+   Request fields are the protobuf-typed values an operator can submit: numbers are non-negative. *)
+From Coq Require Import Strings.String.
+From Coq Require Import List ZArith Lia Bool Arith.
+From Coq Require Import Strings.Byte.
+From WH Require Import lib.Bytes lib.Ralph gen.Extracted gen.ExtractedGov model.Vaa model.AlphConv model.Governance proofs.GovernanceProofs.
+Import ListNotations.
+Import ExtractedGov.GoPay ExtractedGov.RalGov.
+Open Scope Z_scope.
+
+(* [envelope_ok c e v]: version, no signatures, set index, timestamp, nonce, sequence, target chain as requested; emitter =
+   the configured governance emitter; consistency level 32.
+   [accepted_by module action c e v]: the contract's module / action / emitter check (parseAndVerifyGovernanceVAAGeneric
+   with the module constant of the contract file and the ActionId of the entry point) passes for every expected
+   sequence <= the VAA's. *)
+
+(* the module constants of the contracts denote the Go module byte strings *)
+Theorem C15_module_constants_agree :
+  ral_module_gov = Some (RZ (unbe go_CoreModule)) /\ length go_CoreModule = 32%nat /\
+  ral_module_tb = Some (RZ (unbe go_TokenBridgeModule)) /\ length go_TokenBridgeModule = 32%nat.
+Proof. repeat split; reflexivity. Qed.
+
+(* ------------------------------------------------------------------ the nine kinds *)
+Theorem C15_message_fee : forall c e fee v, conv_message_fee c e fee = GOk v ->
+  envelope_ok c e v /\ exists b, hex_decode fee = Some b /\ length b = 32%nat /\
+    payload v = go_CoreModule ++ [x03] ++ b /\
+    accepted_by ral_module_gov ral_action_submitSetMessageFee c e v /\
+    ral_submitSetMessageFee (RZ (tchain v)) (RB (payload v)) (RZ (e_tchain e)) =
+    Some ([], [("fee"%string, RZ (unbe b)); ("messageFee"%string, RZ (unbe b))]).
+Proof. exact message_fee_spec. Qed.
+
+Theorem C15_transfer_fee : forall c e amount recipient v chainId, conv_transfer_fee c e amount recipient = GOk v ->
+  e_tchain e = chainId \/ e_tchain e = 0 ->
+  envelope_ok c e v /\ exists a r, hex_decode amount = Some a /\ hex_decode recipient = Some r /\ length a = 32%nat /\ length r = 32%nat /\
+    payload v = go_CoreModule ++ [x04] ++ a ++ r /\
+    accepted_by ral_module_gov ral_action_submitTransferFees c e v /\
+    ral_submitTransferFees (RZ (tchain v)) (RB (payload v)) (RZ chainId) =
+    Some ([], [("amount"%string, RZ (unbe a)); ("recipient"%string, RB r)]).
+Proof. exact transfer_fee_spec. Qed.
+
+(* guardian-set upgrade; [e_gsi e + 1 < 2^32]: the new index is itself a 4-byte wire field (documented boundary).
+   The contract stores the size byte followed by the keys; the keys are the addresses the request's strings denote,
+   pairwise different, none zero, at most 19 *)
+Theorem C15_guardian_set : forall c e guardians v chainId, conv_guardian_set c e guardians = GOk v ->
+  0 <= e_gsi e -> e_gsi e + 1 < 4294967296 -> e_tchain e = chainId \/ e_tchain e = 0 ->
+  let keys := map hex_to_address guardians in
+  envelope_ok c e v /\ (0 < length guardians <= 19)%nat /\
+  Forall (fun g => is_hex_address g = true) guardians /\ NoDup keys /\ ~ In zero_address keys /\
+  payload v = go_CoreModule ++ [x02] ++ be 4 (e_gsi e + 1) ++ be 1 (Z.of_nat (length keys)) ++ concat keys /\
+  accepted_by ral_module_gov ral_action_submitNewGuardianSet c e v /\
+  ral_submitNewGuardianSet (RZ (tchain v)) (RB (payload v)) (RZ chainId) (RZ (e_gsi e)) =
+  Some ([], [("newGuardianSetIndex"%string, RZ (e_gsi e + 1)); ("newGuardianSetSize"%string, RZ (Z.of_nat (length keys)));
+             ("payloadSize"%string, RZ (38 + Z.of_nat (length keys) * 20)); ("guardianSetIndexes[1]"%string, RZ (e_gsi e + 1));
+             ("guardianSets[1]"%string, RB (be 1 (Z.of_nat (length keys)) ++ concat keys))]).
+Proof. exact guardian_set_spec. Qed.
+
+Theorem C15_guardian_key_denotes : forall g, is_hex_address g = true ->
+  let digits := if has_0x g then skipn 2 g else g in
+  length digits = 40%nat /\ hex_decode digits = Some (hex_to_address g) /\ length (hex_to_address g) = 20%nat.
+Proof. exact hex_address_denotes. Qed.
+
+Theorem C15_contract_upgrade : forall c e payload_hex v, conv_contract_upgrade c e payload_hex = GOk v ->
+  envelope_ok c e v /\ exists blob, hex_decode payload_hex = Some blob /\
+  payload v = go_CoreModule ++ [x01] ++ blob /\
+  accepted_by ral_module_gov ral_action_submitContractUpgrade c e v.
+Proof. exact contract_upgrade_spec. Qed.
+
+Theorem C15_bridge_upgrade : forall c e module payload_hex v, conv_bridge_upgrade c e module payload_hex = GOk v ->
+  envelope_ok c e v /\ (length module <= 32)%nat /\ exists blob, hex_decode payload_hex = Some blob /\
+  payload v = padded module ++ [x02] ++ blob /\
+  (unbe (padded module) = unbe go_TokenBridgeModule -> accepted_by ral_module_tb ral_action_upgradeContract c e v).
+Proof. exact bridge_upgrade_spec. Qed.
+
+(* what parseContractUpgrade makes of the blob that follows the 33 bytes of module and action, in its two forms *)
+Theorem C15_upgrade_blob_short : forall pre code p, length pre = 33%nat -> Z.of_nat (length code) <= 65535 ->
+  p = pre ++ be 2 (Z.of_nat (length code)) ++ code ->
+  exists env, ral_parseContractUpgrade (RB p) = Some ([RB code; RB []; RB []; RB []], env).
+Proof. exact parse_upgrade_short. Qed.
+
+Theorem C15_upgrade_blob_long : forall pre code hash imm mut p, length pre = 33%nat -> length hash = 32%nat ->
+  Z.of_nat (length code) <= 65535 -> Z.of_nat (length imm) <= 65535 -> Z.of_nat (length mut) <= 65535 ->
+  p = pre ++ be 2 (Z.of_nat (length code)) ++ code ++ hash ++ be 2 (Z.of_nat (length imm)) ++ imm ++ be 2 (Z.of_nat (length mut)) ++ mut ->
+  exists env, ral_parseContractUpgrade (RB p) = Some ([RB code; RB hash; RB imm; RB mut], env).
+Proof. exact parse_upgrade_long. Qed.
+
+Theorem C15_upgrade_entry_points : forall p tc rets env, ral_parseContractUpgrade (RB p) = Some (rets, env) -> length rets = 4%nat ->
+  exists a b c d, rets = [a; b; c; d] /\
+  ral_submitContractUpgrade (RZ tc) (RB p) (RZ tc) =
+  Some ([], [("newCode"%string, a); ("prevStateHash"%string, b); ("newEncodedImmutableFields"%string, c); ("newEncodedMutableFields"%string, d)]) /\
+  ral_upgradeContract (RZ tc) (RB p) (RZ tc) =
+  Some ([], [("newCode"%string, a); ("prevStateHash"%string, b); ("newEncodedImmutableFields"%string, c); ("newEncodedMutableFields"%string, d)]).
+Proof.
+  intros p tc rets env H L. destruct (upgrade_entry_gov p tc rets env H L) as (a & b & c & d & E & G).
+  destruct (upgrade_entry_tb p tc rets env H L) as (a' & b' & c' & d' & E' & T). rewrite E in E'. inversion E'; subst.
+  exists a', b', c', d'. auto.
+Qed.
+
+(* [L] = the contract's own chain id; the module name is the operator's: the contract accepts it iff it denotes the
+   TokenBridge constant, e.g. "TokenBridge" *)
+Theorem C15_register_chain : forall c e module ch emitter v L, conv_register_chain c e module ch emitter = GOk v -> 0 <= ch ->
+  e_tchain e = L \/ e_tchain e = 0 -> ch <> L ->
+  envelope_ok c e v /\ ch <= 65535 /\ (length module <= 32)%nat /\ exists ea, hex_decode emitter = Some ea /\ length ea = 32%nat /\
+  payload v = padded module ++ [x01] ++ be 2 ch ++ ea /\
+  (unbe (padded module) = unbe go_TokenBridgeModule -> accepted_by ral_module_tb ral_action_parseAndVerifyRegisterChain c e v) /\
+  ral_parseAndVerifyRegisterChain (RZ (tchain v)) (RB (payload v)) (RZ L) =
+  Some ([RZ ch; RB ea], [("remoteChainId"%string, RZ ch); ("remoteTokenBridgeId"%string, RB ea)]).
+Proof. exact register_chain_spec. Qed.
+
+Theorem C15_token_bridge_module_name : padded (str "TokenBridge") = go_TokenBridgeModule.
+Proof. exact padded_token_bridge. Qed.
+
+Theorem C15_destroy : forall c e ec seqs v, conv_destroy c e ec seqs = GOk v -> 0 <= ec -> seqs <> [] ->
+  envelope_ok c e v /\ ec <= 65535 /\ Z.of_nat (length seqs) <= 65535 /\
+  payload v = go_TokenBridgeModule ++ [xf0] ++ be 2 ec ++ be 2 (Z.of_nat (length seqs)) ++ flat_map (be 8) seqs /\
+  accepted_by ral_module_tb ral_action_destroyUnexecutedSequenceContracts c e v /\
+  ral_destroyUnexecutedSequenceContracts (RZ (tchain v)) (RB (payload v)) (RZ (e_tchain e)) =
+  Some ([], [("remoteChainIdBytes"%string, RB (be 2 ec)); ("length"%string, RZ (Z.of_nat (length seqs)));
+             ("payloadSize"%string, RZ (37 + Z.of_nat (length seqs) * 8)); ("paths"%string, RB (flat_map (be 8) seqs))]).
+Proof. exact destroy_spec. Qed.
+
+(* [paths] and [remoteChainIdBytes] carry the requested numbers exactly *)
+Theorem C15_destroy_values : forall ec seqs, 0 <= ec <= 65535 -> Forall (fun s => 0 <= s < 2 ^ 64) seqs ->
+  unbe (be 2 ec) = ec /\ u64s (length seqs) (flat_map (be 8) seqs) = seqs.
+Proof.
+  intros ec seqs He F. split; [apply unbe_be_small; change (256 ^ Z.of_nat 2) with 65536; lia|apply u64s_flat_map; exact F].
+Qed.
+
+Theorem C15_min_level : forall c e level v, conv_min_level c e level = GOk v -> 0 <= level ->
+  envelope_ok c e v /\ level <= 255 /\
+  payload v = go_TokenBridgeModule ++ [xf1] ++ be 1 level /\
+  accepted_by ral_module_tb ral_action_updateMinimalConsistencyLevel c e v /\
+  ral_updateMinimalConsistencyLevel (RZ (tchain v)) (RB (payload v)) (RZ (e_tchain e)) =
+  Some ([], [("consistencyLevel"%string, RZ level); ("minimalConsistencyLevel"%string, RZ level)]).
+Proof. exact min_level_spec. Qed.
+
+Theorem C15_refund : forall c e address v, conv_refund c e address = GOk v ->
+  envelope_ok c e v /\ exists a, hex_decode address = Some a /\ Z.of_nat (length a) <= 65535 /\
+  payload v = go_TokenBridgeModule ++ [xf2] ++ be 2 (Z.of_nat (length a)) ++ a /\
+  accepted_by ral_module_tb ral_action_updateRefundAddress c e v /\
+  ral_updateRefundAddress (RZ (tchain v)) (RB (payload v)) (RZ (e_tchain e)) =
+  Some ([], [("addressSize"%string, RZ (Z.of_nat (length a))); ("payloadSize"%string, RZ (35 + Z.of_nat (length a)));
+             ("newRefundAddress"%string, RB a); ("refundAddress"%string, RB a)]).
+Proof. exact refund_spec. Qed.
+
+(* ------------------------------------------------------------------ values that do not fit are rejected, nothing wraps *)
+Theorem C15_unfit_rejected : forall c e,
+  (forall level, 255 < level -> conv_min_level c e level = GErr GLevel) /\
+  (forall module ch emitter, 65535 < ch -> conv_register_chain c e module ch emitter = GErr GChainId) /\
+  (forall module ch emitter, ch <= 65535 -> 32 < Z.of_nat (length module) -> conv_register_chain c e module ch emitter = GErr GModuleLen) /\
+  (forall module payload_hex, 32 < Z.of_nat (length module) -> conv_bridge_upgrade c e module payload_hex = GErr GModuleLen) /\
+  (forall ec seqs, 65535 < ec -> conv_destroy c e ec seqs = GErr GEmitterChain) /\
+  (forall ec seqs, ec <= 65535 -> 65535 < Z.of_nat (length seqs) -> conv_destroy c e ec seqs = GErr GTooManySeqs) /\
+  (forall address a, hex_decode address = Some a -> 65535 < Z.of_nat (length a) -> conv_refund c e address = GErr GRefundLen) /\
+  (forall guardians, 19 < Z.of_nat (length guardians) -> conv_guardian_set c e guardians = GErr GGsTooMany) /\
+  conv c e PUnset = GErr GUnset.
+Proof.
+  intros c e. repeat apply conj.
+  - intros level H. unfold conv_min_level. change go_adm_level_max with 255. destruct (Z.gtb_spec level 255); [reflexivity|lia].
+  - intros module ch emitter H. unfold conv_register_chain. change go_adm_chain_max with 65535. destruct (Z.gtb_spec ch 65535); [reflexivity|lia].
+  - intros module ch emitter H1 H2. unfold conv_register_chain, len. change go_adm_chain_max with 65535. change go_adm_module_max with 32.
+    destruct (Z.gtb_spec ch 65535); [lia|]. destruct (Z.gtb_spec (Z.of_nat (length module)) 32); [reflexivity|lia].
+  - intros module payload_hex H. unfold conv_bridge_upgrade, len. change go_adm_upg_module_max with 32.
+    destruct (Z.gtb_spec (Z.of_nat (length module)) 32); [reflexivity|lia].
+  - intros ec seqs H. unfold conv_destroy. change go_adm_echain_max with 65535. destruct (Z.gtb_spec ec 65535); [reflexivity|lia].
+  - intros ec seqs H1 H2. unfold conv_destroy. change go_adm_echain_max with 65535. change go_adm_seqs_max with 65535.
+    destruct (Z.gtb_spec ec 65535); [lia|]. destruct (Z.gtb_spec (Z.of_nat (length seqs)) 65535); [reflexivity|lia].
+  - intros address a D H. unfold conv_refund, len. rewrite D. change go_adm_refund_max with 65535.
+    destruct (Z.gtb_spec (Z.of_nat (length a)) 65535); [reflexivity|lia].
+  - intros guardians H. unfold conv_guardian_set. change go_adm_gs_empty with 0. change go_adm_gs_max with 19.
+    destruct (Z.eqb_spec (Z.of_nat (length guardians)) 0); [lia|]. destruct (Z.gtb_spec (Z.of_nat (length guardians)) 19); [reflexivity|lia].
+  - reflexivity.
+Qed.
+
+(* ------------------------------------------------------------------ no request crashes the node *)
+Theorem C15_no_panic : forall c e p, conv c e p <> GPanic.
+Proof. exact conv_no_panic. Qed.
+
+(* ------------------------------------------------------------------ InjectGovernanceVAA *)
+(* for every keccak: never a panic; what has been put on injectC are the conversions of the leading messages (each with a
+   target chain that fits); on success there is one VAA and one digest per message and the digests are those of the
+   injected VAAs *)
+Theorem C15_inject : forall keccak c ts gsi msgs sent r, inject keccak c ts gsi msgs = (sent, r) ->
+  r <> IPanic /\
+  Forall2 (fun m v => gm_tchain m <= 65535 /\ conv c (env_of ts gsi m) (gm_payload m) = GOk v) (firstn (length sent) msgs) sent /\
+  (forall ds, r = IOk ds -> ds = map (digest keccak) sent /\ length sent = length msgs).
+Proof. exact inject_spec. Qed.
+
+Theorem C15_inject_target_chain_rejected : forall keccak c ts gsi m rest, 65535 < gm_tchain m ->
+  inject keccak c ts gsi (m :: rest) = ([], IErr GTargetChain).
+Proof.
+  intros keccak c ts gsi m rest H. unfold inject. cbn [inject_loop]. change go_adm_target_max with 65535.
+  destruct (Z.gtb_spec (gm_tchain m) 65535); [reflexivity|lia].
+Qed.
+
+(* construction is a function of the configuration and the request alone (the model has no clock, no randomness, no
+   state): two operators submitting the same request obtain the same VAAs and the same digests *)
+Theorem C15_same_request_same_digest : forall keccak c ts gsi msgs o1 o2,
+  inject keccak c ts gsi msgs = o1 -> inject keccak c ts gsi msgs = o2 -> o1 = o2.
+Proof. intros; congruence. Qed.
+
+(* ------------------------------------------------------------------ the hypotheses are satisfiable *)
+Definition ex_cfg : gcfg := {| g_chain := 1; g_addr := repeat x00 31 ++ [x04] |}.
+Definition ex_env : genv := {| e_ts := 1700000000; e_gsi := 3; e_nonce := 7; e_seq := 42; e_tchain := 255 |}.
+
+Example C15_message_fee_ex : exists v, conv_message_fee ex_cfg ex_env (str "00000000000000000000000000000000000000000000000000000000000f4240") = GOk v /\
+  length (payload v) = 65%nat.
+Proof. eexists. split; [vm_compute; reflexivity|vm_compute; reflexivity]. Qed.
+Example C15_transfer_fee_ex : exists v, conv_transfer_fee ex_cfg ex_env (str "00000000000000000000000000000000000000000000000000000000000f4240")
+   (str "abababababababababababababababababababababababababababababababab") = GOk v /\ length (payload v) = 97%nat.
+Proof. eexists. split; [vm_compute; reflexivity|vm_compute; reflexivity]. Qed.
+Example C15_guardian_set_ex : exists v, conv_guardian_set ex_cfg ex_env [str "0x000000000000000000000000000000abcdef0000"; str "000000000000000000000000000000ABCDEF0001"] = GOk v /\
+  length (payload v) = 78%nat.
+Proof. eexists. split; [vm_compute; reflexivity|vm_compute; reflexivity]. Qed.
+Example C15_guardian_set_zero_key_rejected : conv_guardian_set ex_cfg ex_env [str "0x0000000000000000000000000000000000000000"] = GErr GGsDup.
+Proof. vm_compute. reflexivity. Qed.
+Example C15_contract_upgrade_ex : exists v env, conv_contract_upgrade ex_cfg ex_env (str "0003aabbcc") = GOk v /\
+  ral_parseContractUpgrade (RB (payload v)) = Some ([RB [xaa; xbb; xcc]; RB []; RB []; RB []], env).
+Proof. eexists. eexists. split; [vm_compute; reflexivity|vm_compute; reflexivity]. Qed.
+Example C15_bridge_upgrade_ex : exists v, conv_bridge_upgrade ex_cfg ex_env (str "TokenBridge") (str "0001ff") = GOk v /\
+  unbe (padded (str "TokenBridge")) = unbe go_TokenBridgeModule.
+Proof. eexists. split; [vm_compute; reflexivity|vm_compute; reflexivity]. Qed.
+Example C15_register_chain_ex : exists v, conv_register_chain ex_cfg ex_env (str "TokenBridge") 65535 (str "1111111111111111111111111111111111111111111111111111111111111111") = GOk v /\
+  length (payload v) = 67%nat.
+Proof. eexists. split; [vm_compute; reflexivity|vm_compute; reflexivity]. Qed.
+Example C15_destroy_ex : exists v, conv_destroy ex_cfg ex_env 65535 [0; 18446744073709551615; 5] = GOk v /\ length (payload v) = 61%nat.
+Proof. eexists. split; [vm_compute; reflexivity|vm_compute; reflexivity]. Qed.
+Example C15_min_level_ex : exists v, conv_min_level ex_cfg ex_env 255 = GOk v /\ payload v = go_TokenBridgeModule ++ [xf1; xff].
+Proof. eexists. split; [vm_compute; reflexivity|vm_compute; reflexivity]. Qed.
+Example C15_refund_ex : exists v, conv_refund ex_cfg ex_env (str "00bee1cf5ad2b4a1d2e2b5e4c3a3e1c1b1a191817161514131211100f0e0d0c0b0a0") = GOk v /\ length (payload v) = 69%nat.
+Proof. eexists. split; [vm_compute; reflexivity|vm_compute; reflexivity]. Qed.
+Example C15_unfit_rejected_ex : conv_min_level ex_cfg ex_env 300 = GErr GLevel /\ conv_destroy ex_cfg ex_env 65538 [1] = GErr GEmitterChain /\
+  conv_register_chain ex_cfg ex_env (repeat x6d 33) 2 [] = GErr GModuleLen.
+Proof. vm_compute. repeat split; reflexivity. Qed.
+Example C15_inject_ex : forall keccak, exists v1 v2,
+  inject keccak ex_cfg 1700000000 3 [{| gm_seq := 42; gm_nonce := 7; gm_tchain := 255; gm_payload := PMinLevel 3 |};
+                                      {| gm_seq := 43; gm_nonce := 8; gm_tchain := 255; gm_payload := PUnset |};
+                                      {| gm_seq := 44; gm_nonce := 9; gm_tchain := 255; gm_payload := PMinLevel 4 |}] = ([v1], IErr GUnset) /\
+  inject keccak ex_cfg 1700000000 3 [{| gm_seq := 42; gm_nonce := 7; gm_tchain := 255; gm_payload := PMinLevel 3 |};
+                                      {| gm_seq := 44; gm_nonce := 9; gm_tchain := 0; gm_payload := PMinLevel 4 |}] = ([v1; v2], IOk [digest keccak v1; digest keccak v2]).
+Proof. intros keccak. eexists. eexists. split; reflexivity. Qed.
+
+Print Assumptions C15_module_constants_agree.
+Print Assumptions C15_message_fee.
+Print Assumptions C15_transfer_fee.
+Print Assumptions C15_guardian_set.
+Print Assumptions C15_guardian_key_denotes.
+Print Assumptions C15_contract_upgrade.
+Print Assumptions C15_bridge_upgrade.
+Print Assumptions C15_upgrade_blob_short.
+Print Assumptions C15_upgrade_blob_long.
+Print Assumptions C15_upgrade_entry_points.
+Print Assumptions C15_register_chain.
+Print Assumptions C15_token_bridge_module_name.
+Print Assumptions C15_destroy.
+Print Assumptions C15_destroy_values.
+Print Assumptions C15_min_level.
+Print Assumptions C15_refund.
+Print Assumptions C15_unfit_rejected.
+Print Assumptions C15_no_panic.
+Print Assumptions C15_inject.
+Print Assumptions C15_inject_target_chain_rejected.
+Print Assumptions C15_same_request_same_digest.
